@@ -55,4 +55,13 @@ def dataclassUnwrap (f : Flags) (v : V) : Outcome V :=
     else .ok v
   | _ => .ok v
 
+/-- `transform_dataclass` followed by the input stage of `init_dataclass` (cls.py:563-574): the mapping that
+reaches `cls.__init__(**data)`.  `fr` are the preferences of the running transformer (they decide the
+unwrapping), `fc` those of the data class's own options (they decide how a non-mapping becomes a dict). -/
+def dataclassInput (P : Prims) (E : Env) (fr fc : Flags) (v : V) : Outcome V :=
+  dataclassUnwrap fr v >>= fun d =>
+    if isInst d .dict then .ok d
+    else if fc.nec then .perr .typeError
+    else toDict P E fc 0 d
+
 end Utv.C12M
